@@ -30,6 +30,7 @@ from fractions import Fraction as F
 import numpy as np
 from .. import common
 from ..common import enc, ask, call
+from .. import corethm
 
 LEVEL = "proof"
 RULE = ("cases from one PRNG: 1-3 homology degrees of 0-10 bars (thorough: 0-40), coordinates from lattice/half/dyadic/"
@@ -54,8 +55,8 @@ TRUSTED = ["harness/props/c08.py Fraction oracle for the true landscape (cross-c
            "the compiled driver executable is trusted as compiled by Lean's compiler, not checked by the kernel"]
 # theorems that carry a clause of the property (helpers, concrete instances and definitional restatements excluded)
 CORE_THEOREMS = ["kth_lipschitz", "snap_error", "tent_lipschitz", "ramps_are_snapped_tents", "approx_shape", "approx_rows",
-                 "approx_half_step", "approx_half_step_default", "approx_errors", "transformer_flat_entry",
-                 "fit_transform_eq_transform", "vectorize_samples_evalPL", "death_vector_sorted", "death_vector_higher_degree"]
+                 "approx_half_step", "approx_half_step_default", "transformer_flat_entry", "fit_transform_eq_transform",
+                 "vectorize_samples_evalPL", "death_vector_sorted"]
 KNOWN_KEY = "repeated-bar-shortcut"
 KNOWN_SITE = "site=persim/landscapes/exact.py:repeated-bar-shortcut"
 KNOWN_CASE = {"op": "vectorize_true", "bars": [[1.0, 5.0], [1.0, 5.0], [3.0, 6.0]], "start": 1.0, "stop": 6.0, "n": 11}
@@ -776,7 +777,7 @@ def run(ctx):
     corr_failures = []
     cov = common.LineCov(["persim/landscapes/approximate.py", "persim/landscapes/auxiliary.py", "persim/landscapes/tools.py",
                           "persim/landscapes/transformer.py"])
-    ctx.extra["core_theorems"] = CORE_THEOREMS
+    corethm.record(ctx, CORE_THEOREMS, ["PersimVerif/Props/C08.lean"])
     for stream in (stream_approx, stream_transform, stream_vectorize, stream_death):
         stream(ctx, corr_failures)
         if len(ctx.violations) > 5:
@@ -875,8 +876,9 @@ def replay(ctx, rep):
 
 
 MANIFEST = {
-    "text": "Proof: 21 Lean theorems (14 of them core, i.e. carrying a clause of the property; the rest are helpers, concrete "
-            "instances, the tightness witness and the definitional restatement `transformer_is_approx` of the model of `transform`) "
+    "text": "Proof: 21 Lean theorems, of which 12 core (carrying a clause of the property; the rest are helpers, error paths, concrete "
+            "instances, the tightness witness, the regression witness `old_fit_inf_counterexample` and `transformer_is_approx`, which "
+            "only restates the definition of the model of `transform` and is tied to the real transformer by the correspondence) "
             "about the model of PersLandscapeApprox / ndsnap_regular / vectorize / PersistenceLandscaper / death_vector over every "
             "linear ordered field: the k-th largest value is 1-Lipschitz in the sup norm, the nearest grid node is within step/2 "
             "(an on-grid point is fixed), the two ramp loops write exactly the positive tent values of the snapped bars, hence for "
